@@ -3,6 +3,6 @@ CONSTANTS Jobs = {1,2} MaxTime = 3 MaxLag = 2 MaxFaults = 0 MaxCrashes = 0 MaxTo
   JCs = {1} MaxC <- MCMaxC1 AppliedFaults = FALSE Scheds = {FALSE} WithJCSync = FALSE
 SPECIFICATION Spec
 VIEW View
-INVARIANTS C06_EnqNeverRefused C06_AllowNotRefused C06_RefusedAtLimit C06_NoStuckQ C07_NeverEarly C07_IndepStarts S_CounterNonNeg S_CounterExact S_CounterSafe
+INVARIANTS C06_EnqNeverRefused C06_AllowNotRefused C06_RefusedAtLimit C06_NoStuckQ C07_NeverEarly C07_IndepStarts C07_DueStartsQ S_CounterNonNeg S_CounterExact S_CounterSafe
 PROPERTIES C07_RefusedWhenDue C05_Admission C06_Fifo C07_NeverEarlyStep C11_StartStable
 CHECK_DEADLOCK FALSE
